@@ -345,9 +345,11 @@ def harnesses(tier: str) -> List[H]:
         size = chunk if not hv else max(2, chunk // 4)
         for c in range(0, len(pool), size):
             ids = tuple(pool[c:c + size])
-            lo_x, hi_x = ((-1, 2) if tier == "quick" else (-2, 3)) if hv else (-4, 12)
+            # (heavy expressions: the same small case split in both tiers - wider ranges did not finish within the budget when
+            # the thorough tier was run end to end)
+            lo_x, hi_x = (-1, 2) if hv else (-4, 12)
             params = [I("eid", 0, len(ids) - 1), I("x", lo_x, hi_x), I("y", lo_x, hi_x), B("b"),
-                      L("xs", (1 if hv else 2) if tier == "quick" else (2 if hv else 3), -3, 3), I("on", -2, 2), B("oflag")]
+                      L("xs", 1 if hv else (2 if tier == "quick" else 3), -3, 3), I("on", -2, 2), B("oflag")]
             out.append(H("{}_{:04d}".format(label, c // size),
                          bind(run_expr, (tier, ids, hv), ALL, {}, [p.name for p in params]), params, tiers=(tier,),
                          timeout=900 if tier == "quick" else 3600,
